@@ -65,3 +65,39 @@ add("C11", "fault_enumeration",
     "All ordered pairs of 10 commands x 5 patterns x {session-less, in-session}, plus UDP histories with real duplicated datagrams.",
     "Same-command duplicates cannot be distinguished under the statement; the UDP queue-off-by-one consequence is an open known finding.",
     "DESIGN.md 5/C11")
+
+add("C06", "exploration",
+    "independent parse of every transmitted datagram (refbmc wrapper/message parser + refcodec request tables) compared field by field with the caller's values",
+    "Small field domains enumerated completely (65536 cipher-suite requests, 512 auth-capability requests, 1024 sensor requests, ...), wide fields sampled, each outside and inside a session; handshakes for every privilege x lookup mode x username length 0..40.",
+    "Callers' values restricted to the wire domain. Trusted base: refcodec request tables.",
+    "DESIGN.md 5/C06")
+
+add("C07", "exploration",
+    "differential: independent value->bytes encoders (refcodec) vs library decoders, reflect-based comparison of every exported field; rejection oracle on checksums, lengths and short bodies; same values through the high-level API",
+    "Random value assignments per layer over the wire domain, exhaustive sweeps of the 10-bit/4-bit Full Sensor Record fields and of ID strings (all encodings, lengths 0..31), every wrong checksum value, every short prefix.",
+    "refcodec follows the library's documented interpretation where the specification is under-determined; sampled elsewhere.",
+    "DESIGN.md 5/C07")
+
+add("C14", "exploration",
+    "versioned stateful repository device + existential snapshot oracle over the request log (one version, one reservation) with fault injection before every Get SDR",
+    "Generated repositories walked through a real session; every injection point of the walk for seven fault kinds; result compared with refcodec values of each repository version.",
+    "The library's own 500 ms back-off stays in place (sleep-bound). Trusted base: refbmc repository semantics (IPMI v2.0 section 33).",
+    "DESIGN.md 5/C14")
+
+add("C15", "exploration",
+    "exact-rational reference evaluation (math/big) of the conversion formula compared with SensorReader.Read served through a real session",
+    "Exhaustive 256 x 3 x 12 x 8 grid for three factor sets, boundary-complete sweeps of M, B, K1, K2, then PRNG; constructor refusal; sensor number/LUN seen by the BMC.",
+    "Tolerance scaled to the magnitude of the terms; ill-conditioned points compared by class only and counted separately.",
+    "DESIGN.md 5/C15")
+
+add("C16", "exploration",
+    "ground-truth servers for paged data (cipher suite records in 16-byte chunks, DCMI sensor-info pages) + independent record grammar; request log bounds termination",
+    "Record lists steered onto chunk boundaries, malformed data at every cut; DCMI: every instance count 0..255 with page sizes 1..8 and five fallback modes.",
+    "Entity-ID constants checked against specification values at start-up.",
+    "DESIGN.md 5/C16")
+
+add("C17", "exploration",
+    "differential reuse monitor: used layer/connection vs fresh one, deep comparison of exported fields by value",
+    "Ordered pairs of valid encodings per layer covering all branch combinations; every ordered pair of 12 commands x 6 first-command outcomes x {session-less, in-session} against a fresh connection.",
+    "Accepted-but-invalid inputs are observations only.",
+    "DESIGN.md 5/C17")
